@@ -13,6 +13,7 @@ import (
 
 	"verif/harness/internal/fw"
 	"verif/harness/internal/px"
+	"verif/harness/internal/scen"
 )
 
 func pxFault(dir string, frame int, pos, kind string) px.Fault {
@@ -309,5 +310,243 @@ func AfterExit(d *fw.Driver, res *fw.Result, seed int64) error {
 		cancel()
 		run.E.Close()
 	}
+	return nil
+}
+
+// CancelThenClose: calls blocked in their handlers share one context; the context is cancelled and the
+// closer is invoked at once.  Every caller is then in (or on its way to) its cancel branch — not parked on
+// its mailbox — while the exit path fails the pending calls: all of them must still return.
+func CancelThenClose(d *fw.Driver, res *fw.Result, seed int64) error {
+	run, closer, cancel, err := newRunner(seed, 1, true)
+	if err != nil {
+		return err
+	}
+	defer run.E.Close()
+	defer cancel()
+	sig := "contexts cancelled and client closed at the same time"
+	base := nextToks(60)
+	cctx, ccancel := context.WithCancel(run.ctx)
+	const n = 24
+	done := make([]chan struct{}, n)
+	for i := 0; i < n; i++ {
+		done[i] = make(chan struct{})
+		go func(i int) {
+			defer close(done[i])
+			run.CL.Block(cctx, base+i)
+		}(i)
+	}
+	for w := 0; w < 3000; w++ {
+		all := true
+		for i := 0; i < n; i++ {
+			if run.E.H.C.Entered(base+i) == 0 {
+				all = false
+			}
+		}
+		if all {
+			break
+		}
+		time.Sleep(time.Millisecond)
+	}
+	ccancel()
+	closed := make(chan struct{})
+	go func() { closer(); close(closed) }()
+	select {
+	case <-closed:
+	case <-time.After(5 * time.Second):
+		res.Add(fw.Finding{Kind: "monitor", Signature: sig + " closer hangs", Detail: "the closer did not return within 5s", Case: map[string]interface{}{"scenario": "cancel-then-close"}})
+	}
+	blocked := 0
+	for i := 0; i < n; i++ {
+		select {
+		case <-done[i]:
+		case <-time.After(3 * time.Second):
+			blocked++
+		}
+	}
+	if blocked > 0 {
+		res.Add(fw.Finding{Kind: "monitor", Signature: sig + " calls blocked", Detail: fmt.Sprintf("%d of %d calls whose context was cancelled just before the client was closed have not returned 3s after the closer returned", blocked, n),
+			Case: map[string]interface{}{"scenario": "cancel-then-close", "calls": n}})
+	}
+	for i := 0; i < n; i++ {
+		run.E.H.C.Release(base + i)
+	}
+	time.Sleep(3 * time.Millisecond)
+	evs := run.E.RT.Events()
+	if _, err := Check(d, res, evs, ClientConn(evs), sig); err != nil {
+		return err
+	}
+	res.Count("cancel-then-close")
+	res.Eval(true, []interface{}{"cancel-then-close"})
+	return nil
+}
+
+// CloseWithBacklog: a subscription whose consumer has stopped reading is many thousands of values behind
+// (the client-side buffer is unbounded by design) when the client is closed: the closer must return, the
+// channel must be closed, later calls must fail promptly.
+func CloseWithBacklog(res *fw.Result, seed int64, backlog int) error {
+	run, closer, cancel, err := newRunner(seed, 0, true)
+	if err != nil {
+		return err
+	}
+	defer run.E.Close()
+	defer cancel()
+	sig := fmt.Sprintf("client closed with a subscriber %d values behind", backlog)
+	base := nextToks(10)
+	ch, err := run.CL.Sub(run.ctx, base, backlog)
+	if err != nil || ch == nil {
+		return fmt.Errorf("harness error: Sub failed: %v", err)
+	}
+	// read one value, then stop; wait until the handler has sent everything (the client buffers it)
+	<-ch
+	for w := 0; w < 10000 && !run.E.H.C.Exited(base); w++ {
+		time.Sleep(time.Millisecond)
+	}
+	c := map[string]interface{}{"scenario": "close-with-backlog", "backlog": backlog}
+	if !run.E.H.C.Exited(base) {
+		res.Add(fw.Finding{Kind: "monitor", Signature: sig + " producer blocked", Detail: fmt.Sprintf("the handler could not send its %d values although the client buffers without bound: a stalled consumer blocks the connection", backlog), Case: c})
+	}
+	probe := run.Go("count", base+1, "with-backlog")
+	if !probe.Wait(3*time.Second) || probe.Err != nil {
+		res.Add(fw.Finding{Kind: "monitor", Signature: sig + " ordinary call blocked", Detail: "an ordinary call did not complete while a subscriber was behind", Case: c})
+	}
+	closed := make(chan struct{})
+	go func() { closer(); close(closed) }()
+	select {
+	case <-closed:
+	case <-time.After(5 * time.Second):
+		res.Add(fw.Finding{Kind: "monitor", Signature: sig + " closer hangs", Detail: "the closer did not return within 5s", Case: c})
+	}
+	drained := make(chan int, 1)
+	go func() {
+		k := 0
+		for range ch {
+			k++
+		}
+		drained <- k
+	}()
+	select {
+	case <-drained:
+	case <-time.After(5 * time.Second):
+		res.Add(fw.Finding{Kind: "monitor", Signature: sig + " channel open after close", Detail: "the subscription's channel was not closed within 5s of the close (reading it to the end)", Case: c})
+	}
+	late := run.Go("count", base+2, "after-close")
+	if !late.Wait(2 * time.Second) {
+		res.Add(fw.Finding{Kind: "monitor", Signature: sig + " later call blocks", Detail: "a call issued after the close did not return within 2s", Case: c})
+	}
+	res.Count("close-with-backlog")
+	res.Eval(true, []interface{}{"close-with-backlog", backlog})
+	return nil
+}
+
+// MergedStructs: two proxy structs given to one NewMergeClient declare the same method, the first with
+// the retry tag, the second without.  A call through the *untagged* function that is in flight when the
+// connection is lost must not be sent again after the redial.
+func MergedStructs(res *fw.Result, seed int64) error {
+	e, err := scen.NewEnv(seed+31, 1)
+	if err != nil {
+		return err
+	}
+	defer e.Close()
+	ctx, cancel := context.WithCancel(context.Background())
+	defer cancel()
+	var tagged struct {
+		Block func(context.Context, int) (int, error) `retry:"true"`
+	}
+	var plain struct {
+		Block func(context.Context, int) (int, error)
+		Add   func(int, int) (int, error)
+	}
+	closer, err := jsonrpc.NewMergeClient(ctx, e.WSURL(), "SH", []interface{}{&tagged, &plain}, nil,
+		jsonrpc.WithPingInterval(0), jsonrpc.WithTimeout(0), jsonrpc.WithReconnectBackoff(3*time.Millisecond, 12*time.Millisecond))
+	if err != nil {
+		return err
+	}
+	defer scenClose(res, closer, "merged structs")
+	sig := "untagged declaration next to a retry-tagged one of the same method"
+	tok := nextToks(5)
+	type out struct {
+		v   int
+		err error
+	}
+	ch := make(chan out, 1)
+	go func() { v, err := plain.Block(ctx, tok); ch <- out{v, err} }()
+	for w := 0; w < 3000 && e.H.C.Entered(tok) == 0; w++ {
+		time.Sleep(time.Millisecond)
+	}
+	e.PX.Cut(0, "rst")
+	// the client heals
+	healed := false
+	for w := 0; w < 400 && !healed; w++ {
+		done := make(chan bool, 1)
+		go func() { v, err := plain.Add(20, 22); done <- err == nil && v == 42 }()
+		select {
+		case healed = <-done:
+		case <-time.After(time.Second):
+		}
+		if !healed {
+			time.Sleep(5 * time.Millisecond)
+		}
+	}
+	time.Sleep(150 * time.Millisecond) // a re-sent request (method retry backoff: 100 ms) would have been executed by now
+	c := map[string]interface{}{"scenario": "merged-structs"}
+	if n := e.H.C.Execs(tok); n > 1 {
+		res.Add(fw.Finding{Kind: "monitor", Signature: sig + " executed twice", Detail: fmt.Sprintf("a call through the untagged function was executed %d times by the server: it was re-sent after the redial", n), Case: c})
+	}
+	e.H.C.Release(tok)
+	e.H.C.ReleaseAgain(tok)
+	select {
+	case o := <-ch:
+		if o.err == nil && e.H.C.Execs(tok) != 1 {
+			res.Add(fw.Finding{Kind: "monitor", Signature: sig + " answer without exactly one execution", Detail: fmt.Sprintf("the untagged call returned %d without error after %d executions", o.v, e.H.C.Execs(tok)), Case: c})
+		}
+	case <-time.After(3 * time.Second):
+		res.Add(fw.Finding{Kind: "monitor", Signature: sig + " call hangs", Detail: "the untagged call in flight at the loss did not return", Case: c})
+	}
+	res.Count("merged-structs")
+	res.Eval(true, []interface{}{"merged-structs"})
+	return nil
+}
+
+// OneShotNotifyOnce: a notify-tagged call over HTTP executes exactly once on a healthy connection, also
+// when the caller releases its context as soon as the call has returned.
+func OneShotNotifyOnce(res *fw.Result, seed int64) error {
+	e, err := scen.NewEnv(seed+32, 0)
+	if err != nil {
+		return err
+	}
+	defer e.Close()
+	var cl struct {
+		NoteCtx func(context.Context, int) `notify:"true"`
+		Note    func(int)                  `notify:"true"`
+	}
+	closer, err := jsonrpc.NewMergeClient(context.Background(), e.HTTPURL(), "SH", []interface{}{&cl}, nil)
+	if err != nil {
+		return err
+	}
+	defer closer()
+	base := nextToks(50)
+	const n = 20
+	for i := 0; i < n; i++ {
+		ctx, cancel := context.WithTimeout(context.Background(), 5*time.Second)
+		cl.NoteCtx(ctx, base+i)
+		cancel() // the usual `defer cancel()` of the calling function
+		cl.Note(base + n + i)
+	}
+	time.Sleep(100 * time.Millisecond)
+	missing, twice := 0, 0
+	for i := 0; i < 2*n; i++ {
+		switch k := e.H.C.Execs(base + i); {
+		case k == 0:
+			missing++
+		case k > 1:
+			twice++
+		}
+	}
+	if missing > 0 || twice > 0 {
+		res.Add(fw.Finding{Kind: "monitor", Signature: "http notifications not executed exactly once", Detail: fmt.Sprintf("%d notifications reported as sent over HTTP on a healthy connection: %d were never executed, %d executed more than once", 2*n, missing, twice),
+			Case: map[string]interface{}{"scenario": "oneshot-notify-once"}})
+	}
+	res.Count("oneshot.notify-once")
+	res.Eval(true, []interface{}{"oneshot-notify-once"})
 	return nil
 }
